@@ -69,7 +69,7 @@ struct IgnoreGuard {
 #endif
 };
 
-enum { ARENA_SLOT = 64, ARENA_SLOTS = 1 << 15, ARENA_MAX = 12 };
+enum { ARENA_SLOT = 64, ARENA_SLOTS = 1 << 18, ARENA_MAX = 12 };
 
 struct Arena {
     char *base = nullptr;
